@@ -1,0 +1,45 @@
+//! Kani harnesses (compiled only under `cfg(kani)`): the clap-facing option enums convert to the
+//! same-named library variant and back. Loop-free over the complete finite domain of every enum.
+use crate::opt::*;
+use stylua_lib::{
+    CallParenType, CollapseSimpleStatement, IndentType, LineEndings, LuaVersion, QuoteStyle,
+    SpaceAfterFunctionNames,
+};
+
+macro_rules! check_enum {
+    ($harness:ident, $arg:ident, $lib:ident, { $($(#[$inner:meta])* $variant:ident,)+ }) => {
+        #[kani::proof]
+        fn $harness() {
+            let all = [$($(#[$inner])* $arg::$variant,)+];
+            let index: usize = kani::any();
+            kani::assume(index < all.len());
+            let arg = all[index];
+            let lib: $lib = arg.into();
+            // the library value has the same name as the command line value ...
+            match arg {
+                $($(#[$inner])* $arg::$variant => assert!(matches!(lib, $lib::$variant)),)+
+            }
+            // ... and converting back gives the command line value again
+            let back: $arg = lib.into();
+            match arg {
+                $($(#[$inner])* $arg::$variant => assert!(matches!(back, $arg::$variant)),)+
+            }
+        }
+    };
+}
+
+check_enum!(lua_version, ArgLuaVersion, LuaVersion, {
+    All,
+    Lua51,
+    #[cfg(feature = "lua52")] Lua52,
+    #[cfg(feature = "lua53")] Lua53,
+    #[cfg(feature = "lua54")] Lua54,
+    #[cfg(feature = "luau")] Luau,
+    #[cfg(feature = "luajit")] LuaJIT,
+});
+check_enum!(line_endings, ArgLineEndings, LineEndings, { Unix, Windows, });
+check_enum!(indent_type, ArgIndentType, IndentType, { Tabs, Spaces, });
+check_enum!(quote_style, ArgQuoteStyle, QuoteStyle, { AutoPreferDouble, AutoPreferSingle, ForceDouble, ForceSingle, });
+check_enum!(call_parentheses, ArgCallParenType, CallParenType, { Always, NoSingleString, NoSingleTable, None, Input, });
+check_enum!(collapse_simple_statement, ArgCollapseSimpleStatement, CollapseSimpleStatement, { Never, FunctionOnly, ConditionalOnly, Always, });
+check_enum!(space_after_function_names, ArgSpaceAfterFunctionNames, SpaceAfterFunctionNames, { Never, Definitions, Calls, Always, });
